@@ -116,7 +116,7 @@ type Targets struct {
 func RunCase(u *Universe, c *Case, tg Targets, kp *KeyperEnv) Line {
 	line := Line{C: *c, U: u.ID, Obs: []Obs{}}
 	msg := u.Message(c)
-	ks := u.KeyperSet(c, msg.Eon)
+	ks := u.KeyperSet(c, msg.Eon, c.LastAnn())
 	if tg.Fn {
 		line.Obs = append(line.Obs, guarded("fn", func() (pubsub.ValidationResult, error) {
 			if c.F == "gnosis" {
@@ -128,9 +128,12 @@ func RunCase(u *Universe, c *Case, tg Targets, kp *KeyperEnv) Line {
 	if tg.Access && c.F == "gnosis" && u.eon != nil {
 		cfg := &gnosisaccessnode.Config{InstanceID: msg.InstanceId, MaxNumKeysPerMessage: 500}
 		st := gnosisaccessnode.NewStorage()
+		// the long-lived Storage is told the announcement history of the eon, oldest first
 		for _, e := range u.Eons() {
 			st.AddEonKey(e, u.EonPublicKey())
-			st.AddKeyperSet(e, u.KeyperSet(c, e))
+			for _, kind := range c.Ann {
+				st.AddKeyperSet(e, u.KeyperSet(c, e, kind))
+			}
 		}
 		h := gnosisaccessnode.NewDecryptionKeysHandler(cfg, st)
 		line.Obs = append(line.Obs, guarded("access", func() (pubsub.ValidationResult, error) {
